@@ -45,6 +45,7 @@ type Obligation struct {
 	Inputs  []modelVar
 	Result  *SolveResult
 	Inlined string
+	Extra   string // extra declarations / assertions placed before the goal (relational obligations)
 }
 
 type modelVar struct {
@@ -94,6 +95,7 @@ type frame struct {
 	curNames map[string]ssa.Value
 	callOrd  map[*ssa.Call]string // "callee#k" by source order
 	allocByPos map[token.Pos]*ssa.Alloc
+	activeRange *rangeState
 }
 
 type loopState struct {
@@ -115,6 +117,8 @@ type rangeState struct {
 	visited Term // at loop header (havoced)
 	dom0    Term
 	curKey  Term
+	nd0, nf0 int
+	ord     int
 }
 
 type enc struct {
@@ -164,6 +168,21 @@ type enc struct {
 	finder  bool
 	unfolded map[string]bool
 	ufDecls []string
+	awbDepth int
+	awbSeen  map[ssa.Value]bool
+	recordCommute bool
+	commuteSites  []commuteSite
+}
+
+// commuteSite: a map entry written inside a map range under a key that is not the range key
+type commuteSite struct {
+	ord            int
+	pos            token.Pos
+	at, key, val   Term
+	rk             Term
+	nd0, nf0       int // declarations / definitions at the start of the iteration
+	nd1, nf1       int
+	text           string
 }
 
 func newEnc(w *World, ss *SpecSet, fn *ssa.Function) *enc {
